@@ -299,3 +299,39 @@ Example generated_lsolve_runs :
   | None => False
   end.
 Proof. vm_compute. reflexivity. Qed.
+
+(* ---- C20 (linear solver) stated about the GENERATED lsolve over exact rationals: on a square system and with any
+   threshold >= 0, whatever the definition produced from the source text returns solves A x = b (A, b = the
+   arguments as passed); if some non-zero y has A y = 0 it raises; it never fails with a division by zero that
+   the model would not report (every failure is the model's Singular). ---- *)
+From PV Require Import Proofs.LSolveProofs Props.C20.
+
+Lemma square_is_wfA : forall A b, square_system A b -> wfA (length b) A.
+Proof.
+  intros A b [HL HR]. split; [exact HL|]. intros i Hi.
+  rewrite Forall_forall in HR. apply HR. apply nth_In. rewrite HL. exact Hi.
+Qed.
+
+Theorem tie_c20_generated_lsolve_sound : forall eps A b A' b' x, (0 <= eps)%Q -> square_system A b ->
+  Core.lsolve Q Qops eps A b = Some (A', b', x) -> length x = length b /\ veq (mat_vec A x) b.
+Proof.
+  intros eps A b A' b' x He Hs H.
+  pose proof (tie_lsolve eps A b (square_is_wfA A b Hs)) as T.
+  destruct (lsolveQ eps A b) as [| |x0] eqn:E.
+  - rewrite T in H. discriminate.
+  - rewrite T in H. discriminate.
+  - destruct T as [A0 [b0 T]]. rewrite T in H. injection H as _ _ Hx. subst x0.
+    exact (c20_lsolve_sound eps A b x He Hs E).
+Qed.
+
+Theorem tie_c20_generated_lsolve_singular : forall eps A b y, (0 <= eps)%Q -> square_system A b ->
+  length y = length b -> veq (mat_vec A y) (zeros (length b)) -> ~ veq y (zeros (length b)) ->
+  Core.lsolve Q Qops eps A b = None.
+Proof.
+  intros eps A b y He Hs Hy H0 Hn.
+  pose proof (tie_lsolve eps A b (square_is_wfA A b Hs)) as T.
+  rewrite (c20_lsolve_singular eps A b y He Hs Hy H0 Hn) in T. exact T.
+Qed.
+
+Print Assumptions tie_c20_generated_lsolve_sound.
+Print Assumptions tie_c20_generated_lsolve_singular.
